@@ -189,6 +189,8 @@ func init() {
 			Run: func(P *Program, R *Report) { inPlaceDisciplineRule(P, R, "C11.j", "revocation.Proof", "revocation.Witness", "revocation.Accumulator") }},
 		Rule{ID: "C11.g", Explain: "determinism: on the verifier path no loop over a map returns a value that depends on which qualifying key was met first. revocationAttrIndex does (known finding K2).",
 			Run: func(P *Program, R *Report) { mapOrderVerdictRule(P, R) }},
+		Rule{ID: "C11.k", Explain: "the commitments C_r and C_u of a non-revocation proof are bases of the verified relations: VerifyWithChallenge accepts only if both are elements of the group - 0 < C < N (with C_r = C_u = 0 all reconstructed commitments are zero whatever the responses, so that a proof made without a witness verifies).",
+			Run: func(P *Program, R *Report) { revocationGroupElementsRule(P, R, "C11.k") }},
 	)
 }
 
@@ -583,3 +585,50 @@ func mapOrderVerdictRule(P *Program, R *Report) {
 }
 
 func isMapType(t types.Type) bool { _, ok := t.Underlying().(*types.Map); return ok }
+
+
+func revocationGroupElementsRule(P *Program, R *Report, rule string) {
+	const key = "revocation.(*Proof).VerifyWithChallenge"
+	fn := mustFunc(P, R, rule, key)
+	if fn == nil {
+		return
+	}
+	for _, f := range []string{"Cr", "Cu"} {
+		f := f
+		// tested on the field itself, or in a loop over a literal list of the two (`for _, c := range []*big.Int{p.Cr, p.Cu}`)
+		subj := func(d string) bool { return d == revP+"."+f }
+		lower, upper := groupElementMatchers(P, subj, pkD+".N")
+		for _, side := range []struct {
+			name, what string
+			m          func(a Atom) bool
+		}{{"positive", "0 < " + f, lower}, {"below-N", f + " < N", upper}} {
+			side := side
+			ok := mpQuiet(P, fn, AcceptTrue(0), &MustPass{Match: side.m})
+			detail := ""
+			if !ok.Holds {
+				// the loop form: every element of a literal list that contains the field is tested
+				lowerE, upperE := groupElementMatchers(P, func(d string) bool { return strings.HasSuffix(d, "[#i]") || strings.HasSuffix(d, "[*]") }, pkD+".N")
+				me := lowerE
+				if side.name == "below-N" {
+					me = upperE
+				}
+				fa := &ForAll{P: P, Spec: ForAllSpec{Coll: func(d string) bool { return strings.HasPrefix(d, "new:[") }, Body: func(fn2 *ssa.Function, l *Loop) *MustPass {
+					return &MustPass{Match: me}
+				}}}
+				m := fa.OnAccept(fn, AcceptTrue(0))
+				inList := false
+				// the literal must contain the field
+				allInstrs(fn, func(i ssa.Instruction) {
+					if st, isSt := i.(*ssa.Store); isSt {
+						if ia, isIA := st.Addr.(*ssa.IndexAddr); isIA && strings.HasPrefix(desc(ia.X), "new:[") && desc(st.Val) == revP+"."+f {
+							inList = true
+						}
+					}
+				})
+				ok.Holds = m.Holds && inList
+				detail = ok.Path + " | loop form: " + m.Path
+			}
+			R.decide(rule, key+":"+f+":"+side.name, "accept => "+side.what+" (the commitment is a group element)", ok.Holds, detail, P.Pos(fn.Pos()))
+		}
+	}
+}
